@@ -985,7 +985,10 @@ func callBuiltin(caller *frame, callpos token.Pos, fn *ssa.Builtin, args []value
 			if len(dst)+len(src) <= cap(dst) {
 				caller.i.checkWriteSlice(dst, len(dst), len(dst)+len(src), caller, "append in place")
 			}
-			return append(dst, src...)
+			for _, e := range src {
+				dst = append(dst, copyValue(e))
+			}
+			return dst
 		}
 
 	case "copy": // copy([]T, []T) int or copy([]byte, string) int
@@ -1001,7 +1004,18 @@ func callBuiltin(caller *frame, callpos token.Pos, fn *ssa.Builtin, args []value
 				n = len(dst)
 			}
 			caller.i.checkWriteSlice(dst, 0, n, caller, "copy")
-			return copy(dst, src.([]value))
+			sv := src.([]value)
+			if n > 0 && &dst[0] != &sv[0] {
+				// element-wise with value semantics (aggregates are deep-copied); handle
+				// overlap like the builtin does
+				tmp := make([]value, n)
+				for k := 0; k < n; k++ {
+					tmp[k] = copyValue(sv[k])
+				}
+				copy(dst, tmp)
+				return n
+			}
+			return n
 		}
 
 	case "close": // close(chan T)
@@ -1524,4 +1538,25 @@ func fandbits[F floaty](x, y F) F {
 		*(*uint64)(unsafe.Pointer(&x)) &= *(*uint64)(unsafe.Pointer(&y))
 	}
 	return x
+}
+
+// copyValue copies a value with Go's value semantics: structs and arrays are copied
+// recursively (their storage is addressable through FieldAddr/IndexAddr), everything
+// else is immutable or a reference.
+func copyValue(v value) value {
+	switch x := v.(type) {
+	case structure:
+		out := make(structure, len(x))
+		for i := range x {
+			out[i] = copyValue(x[i])
+		}
+		return out
+	case array:
+		out := make(array, len(x))
+		for i := range x {
+			out[i] = copyValue(x[i])
+		}
+		return out
+	}
+	return v
 }
